@@ -1669,3 +1669,74 @@ def rule_error_owner(prog):
     if n < 30:
         out.missing("expect(..) calls in the parser (found %d)" % n)
     return out
+
+
+# ------------------------------------------------------------------ RECURSION-BOUND
+
+def rule_recursion_bound(prog):
+    """The AST is built by recursive descent and then walked by recursive functions (table build, semantic analysis, ranges, error
+    collection, formatting ...): the stack every one of them needs grows with the nesting depth of the tree.  Necessary condition for
+    `analysing any text terminates without panicking`: the depth of the tree is bounded where it is built - the parser carries a
+    nesting counter in its state (TokenStream) and compares it with a constant somewhere on the recursion.  Decided here: for every
+    recursive node type with a parser, whether such a comparison exists in the parser at all."""
+    out = Out("RECURSION-BOUND")
+    fc = prog.front
+    ast = [p for p in prog.adts if p.startswith("spl_frontend::ast::")]
+    edges = {p: set() for p in ast}
+    for p in ast:
+        for v in prog.adts[p]["variants"]:
+            for f in v["fields"]:
+                for q in ast:
+                    if hir.type_mentions(fc, f["t"], q):
+                        edges[p].add(q)
+
+    def reach(p):
+        seen, st = set(), [p]
+        while st:
+            x = st.pop()
+            for y in edges.get(x, ()):
+                if y not in seen:
+                    seen.add(y)
+                    st.append(y)
+        return seen
+    rec = sorted(p for p in ast if p in reach(p) and prog.adts[p]["k"] == "enum")
+    if not rec:
+        out.missing("recursive AST node types (Expression, Statement, ...)")
+        return out
+    # bound checks in the parser: `<state of the token stream> (<|<=|>|>=) <constant>`
+    bounds = []
+    for b in fc.bodies:
+        f_ = fc.file_of(b["sp"])
+        if not (f_.endswith("src/parser.rs") or "/parser/" in f_) or "/tests" in f_:
+            continue
+        for bn in hir.nodes(b["body"], "Binary"):
+            if bn["op"] not in ("<", "<=", ">", ">=", "Lt", "Le", "Gt", "Ge"):
+                continue
+            def is_const(e):
+                e = hir.strip(e)
+                if e.get("k") == "Lit":
+                    return True
+                return e.get("k") == "Path" and e["res"].get("k") == "Def" and e["res"].get("dk") in ("Const", "AssocConst")
+            def is_state(e):
+                for x in hir.nodes(e):
+                    if x.get("k") in ("Field", "MethodCall"):
+                        base = x.get("base") or x.get("recv")
+                        if base is not None and "TokenStream" in fc.tstr(hir.strip(base)["t"]):
+                            return True
+                        if base is not None and hir.strip(base).get("k") == "Field" and \
+                                "TokenStream" in fc.tstr(hir.strip(hir.strip(base)["base"])["t"]):
+                            return True
+                return False
+            if (is_const(bn["l"]) and is_state(bn["r"])) or (is_const(bn["r"]) and is_state(bn["l"])):
+                bounds.append((b, bn))
+    for p in rec:
+        nm = last(p)
+        pb = [b for b in fc.bodies if b["d"] == "<ast::%s as parser::Parser>::parse" % nm]
+        if not pb:
+            continue
+        out.add("<ast::%s as parser::Parser>::parse" % nm, "the nesting depth of %s nodes is bounded by the parser" % nm, bool(bounds),
+                fc.loc(pb[0]["sp"]), "`%s` contains itself (through %s) and is parsed and later walked recursively, but nothing in the parser "
+                "compares a nesting counter of the token stream with a constant: the recursion depth equals the nesting depth of the "
+                "document and the stack overflows (SIGABRT, the server process dies)" % (
+                    nm, ", ".join(sorted(last(q) for q in edges[p] if p in reach(q) or q == p)[:4])), ("bound",))
+    return out
